@@ -5,6 +5,7 @@ import (
 	"fmt"
 
 	schema "github.com/jsightapi/jsight-schema-core"
+	"github.com/jsightapi/jsight-schema-core/kit"
 	"github.com/jsightapi/jsight-schema-core/notations/jschema"
 	"github.com/jsightapi/jsight-schema-core/notations/regex"
 
@@ -108,8 +109,6 @@ func (core *JApiCore) compileUserTypeWithAllDependencies(name string) error {
 		return nil
 	}
 
-	dd := core.rawUserTypes
-
 	tt, err := fetchUsedUserTypes(currUT, core.userTypes)
 	if err != nil {
 		var ute userTypeError
@@ -117,7 +116,7 @@ func (core *JApiCore) compileUserTypeWithAllDependencies(name string) error {
 			name = ute.userTypeName
 			err = ute.err
 		}
-		return jschemaToJAPIError(err, dd.GetValue(name))
+		return core.userTypeErrorToJAPIError(err, name)
 	}
 
 	for _, n := range tt {
@@ -132,24 +131,45 @@ func (core *JApiCore) compileUserTypeWithAllDependencies(name string) error {
 			}
 
 			if err := core.checkUserTypeDuringBuild(n, ut); err != nil {
-				return jschemaToJAPIError(err, dd.GetValue(n))
+				return core.userTypeErrorToJAPIError(err, n)
 			}
 		}
 
 		if err := safeAddType(currUT, n, ut); err != nil {
-			return jschemaToJAPIError(err, dd.GetValue(n))
+			return core.userTypeErrorToJAPIError(err, n)
 		}
 	}
 
 	// Check user type is correct.
 	// We should do it here 'cause it will simplify further processing.
 	if err := currUT.Check(); err != nil {
-		return jschemaToJAPIError(err, dd.GetValue(name))
+		return core.userTypeErrorToJAPIError(err, name)
 	}
 
 	core.userTypes.Set(name, currUT)
 
 	return nil
+}
+
+// userTypeErrorToJAPIError converts the error got while processing the user type
+// with the specified name. The schema error can be found in another user type
+// (which is used by the processed one), in that case the error index is relative
+// to the body of that type.
+func (core *JApiCore) userTypeErrorToJAPIError(err error, name string) *jerr.JApiError {
+	var e kit.Error
+	if stdErrors.As(err, &e) {
+		switch {
+		case core.rawUserTypes.Has(e.IncorrectUserType()):
+			name = e.IncorrectUserType()
+
+		case e.Filename() != name && core.rawUserTypes.Has(e.Filename()):
+			// The error is found in an unnamed type (i.e. "@foo | @bar") which belongs
+			// to another user type. The index of such an error is shifted by the
+			// position of the unnamed type, so we can point only to the body.
+			return core.rawUserTypes.GetValue(e.Filename()).BodyError(e.Message())
+		}
+	}
+	return jschemaToJAPIError(err, core.rawUserTypes.GetValue(name))
 }
 
 func (core *JApiCore) checkUserTypeDuringBuild(name string, ut schema.Schema) error {
